@@ -93,7 +93,10 @@ def expr(dim, custom, depth, positive=False):
             # an angle given in deg / mrad must be taken in radians by sin and cos
             return ["fn", draw(st.sampled_from(["sin", "cos"])), sub("angle", False)]
         if r == "angle*none":
-            return ["chain", sub("angle"), [["*", draw(atom("none", custom, True))]]]
+            left = sub("angle")
+            if left[0] == "chain" and left[2] and left[2][0][0] in "+-":
+                left = ["par", left]
+            return ["chain", left, [["*", draw(atom("none", custom, True))]]]
         if r == "powi":
             return ["pow", draw(gen(dim="none", depth=depth - 1, positive=True)), draw(st.sampled_from([2, 3]))]
         if r == "pow(len,2)":
@@ -380,8 +383,10 @@ def render_logic(t, custom):
     _c, left, op, rel, dim, unit2, factor = t
     lv = evaluate(left, custom)
     if rel == "equal":
-        rv = lv
+        # the very same number in the very same unit (no arithmetic on the way: != and the strict operators are exact)
         unit2 = left[2] if left[0] == "num" else NODES[left[1]][2]
+        num_ = left[1] if left[0] == "num" else NODES[left[1]][1]
+        return render(left) + f" {op} " + repr(float(num_)) + (f" {unit2}" if unit2 else "")
     elif rel == "equal_conv":
         rv = lv
     else:
